@@ -143,6 +143,25 @@ def run_case(case: dict) -> dict:
                         sigs.append([fmt, len(hist["sessions"]), iface,
                                      "p1" if par == 1 else "p<S" if par < n_shards else "p>=S",
                                      common.stable_hash(observation.get("release_order", perturb))])
+        # successive passes of a repeating unshuffled stream are passes too: each must equal the one-pass sequence
+        import itertools
+        for split in model.splits():
+            one_pass, _ = dsmod.ids_of(readers.read(dataset, "sync", split, shuffle=0, repeat=False))
+            n_shards = len(_iter.shard_paths(dataset, split))
+            for iface in rng.sample(ifaces, min(2, len(ifaces))):
+                par = rng.choice(sorted({n_shards + 1, n_shards + 2, 2 * n_shards + 1, 16}))
+                kwargs = {"file_parallelism": par} if "file_parallelism" in readers.ACCEPTS[iface] else {}
+                try:
+                    ids, _ = dsmod.ids_of(readers.read(dataset, iface, split, shuffle=0, repeat=True,
+                                                       limit=3 * len(one_pass), **kwargs))
+                except Exception as exc:  # pylint: disable=broad-exception-caught
+                    violations.append({"key": f"pass-raised/{iface}", "msg": f"repeating stream: {type(exc).__name__}: {exc}"[:300]})
+                    continue
+                obs["repeating_stream_checks"] += 1
+                if ids != list(itertools.islice(itertools.cycle(one_pass), len(ids))):
+                    violations.append({"key": f"later-pass-differs-from-first/{iface}",
+                                       "msg": f"{fmt} split={split} ({n_shards} shards) par={par}: a later pass of the unshuffled "
+                                              f"repeating stream is not the one-pass sequence: {ids[:12]}..."})
         return {"sigs": sigs, "sig": None, "nontrivial": bool(sigs), "violations": violations, "obs": dict(obs),
                 "sample": {"fmt": fmt, "sessions": [[s["kind"], s.get("subdir")] for s in hist["sessions"]]}}
     finally:
